@@ -48,6 +48,7 @@ pub struct SynAB {}
 #[unit(Q_Two_B, "q2b", 2.0)]
 #[unit(Q_Big, "qb", 250)]
 #[unit(Q_Tiny, "qt", MICRO, 0.000001)]
+#[unit(Q_Tiny_Twin, "qtt", MICRO, 0.000003)]
 pub struct SynQ {}
 
 #[quantity(SynB * SynB)]
@@ -108,4 +109,47 @@ pub struct SynS {}
 #[unit(Lau, "lau", 37)]
 #[unit(Lav, "lav", 41)]
 #[unit(Law, "law", 5e0)]
+#[unit(Lay, "lay", 31.000000000000004)]
+#[unit(Laz, "laz", 31)]
 pub struct SynL {}
+
+/// More than thirty-two units (an unstable sort starts to reorder there), two
+/// aliases of the reference unit, a tie at 1000; result of a derivation.
+#[quantity(SynF * SynA)]
+#[unit(Xl_Go, "xlgo", 37)]
+#[unit(Xl_Ga, "xlga", 23)]
+#[unit(Xl_Fe, "xlfe", 11)]
+#[unit(Xl_Bu, "xlbu", 0.01)]
+#[unit(Xl_Fo, "xlfo", 17)]
+#[unit(Xl_Di, "xldi", 10)]
+#[unit(Xl_Cu, "xlcu", 2000)]
+#[unit(Xl_Bo, "xlbo", 2)]
+#[unit(Xl_Ge, "xlge", 29)]
+#[unit(Xl_De, "xlde", 400)]
+#[unit(Xl_Ba, "xlba", 0.4)]
+#[unit(Xl_Ca, "xlca", 0.3)]
+#[unit(Xl_Ce, "xlce", 0.001)]
+#[unit(Xl_Fa, "xlfa", 5)]
+#[unit(Xl_Co, "xlco", 14)]
+#[unit(Xl_Ja, "xlja", 53)]
+#[unit(Xl_Bi, "xlbi", 1000)]
+#[ref_unit(Xl, "xl")]
+#[unit(Xl_Ho, "xlho", 0.125)]
+#[unit(Xl_Gi, "xlgi", 31)]
+#[unit(Xl_Hi, "xlhi", 0.25)]
+#[unit(Xl_Je, "xlje", 1000.0)]
+#[unit(Xl_Ji, "xlji", 61)]
+#[unit(Xl_He, "xlhe", 0.5)]
+#[unit(Xl_Ha, "xlha", 43)]
+#[unit(Xl_Da, "xlda", 0.6)]
+#[unit(Xl_Fi, "xlfi", 13)]
+#[unit(Xl_Be, "xlbe", 7)]
+#[unit(Xl_Du, "xldu", 3)]
+#[unit(Xl_Hu, "xlhu", 47)]
+#[unit(Xl_Do, "xldo", 300)]
+#[unit(Xl_Gu, "xlgu", 41)]
+#[unit(Xl_Ci, "xlci", 0.8)]
+#[unit(Xl_Fu, "xlfu", 19)]
+#[unit(Xl_Alias, "xlalias", 1)]
+#[unit(Xl_Uno, "xluno", 1.0)]
+pub struct SynXL {}
